@@ -88,6 +88,7 @@ class C16(Prop):
                    'values in fields have a working str()']
     quick_examples = 1500
     thorough_examples = 6000
+    fuzz_runs = 15000
     floors = {'failing_field': 0.15, 'multi_field': 0.2, 'escaped_braces': 0.15, 'log_and_snapshot': 0.3,
               'arbitrary_text': 0.1}
 
